@@ -510,6 +510,19 @@ func runCall(d M) (res M) {
 	return <-done
 }
 
+// defaultTimeoutMs is the value client.DefaultTimeout is set to for the whole run (it is read by every new
+// request; cases run in parallel, so it is set once and never changed).
+const (
+	defaultTimeoutMs = 600
+	noDeadlineMs     = 10000 // a call without any deadline is still expected back within this bound (fault-free exchanges only)
+)
+
+var defaultOnce sync.Once
+
+func setDefaultTimeout() {
+	defaultOnce.Do(func() { client.DefaultTimeout = defaultTimeoutMs * time.Millisecond })
+}
+
 const (
 	slackRetryMs = 700
 	stallCapMs   = 2500 // a harness stall gives up this long after the effective deadline (> SlackMs of the trace spec)
@@ -518,38 +531,31 @@ const (
 func runCallOnce(d M) (res M) {
 	s := scriptOf(drv.Map(d["script"]))
 	mode := drv.Str(d["mode"])
-	tkind := drv.Str(d["tkind"])
-	ctxAt := drv.Str(d["ctx_at"])
-	nearMs := drv.Int(d["near_ms"])
-	farMs := drv.Int(d["far_ms"])
+	tsrc := drv.Str(d["tsrc"])            // explicit (SetTimeout) | default (left at client.DefaultTimeout) | zero (SetTimeout(0))
+	ctxAt := drv.Str(d["ctx_at"])         // none | op (operation.Context) | rt (Runtime.Context)
+	timeoutMs := drv.Int(d["timeout_ms"]) // request timeout (explicit value / the value DefaultTimeout is set to / unused)
+	ctxMs := drv.Int(d["ctx_ms"])         // deadline of the caller's context, -1: none
 	unit := drv.Int(d["resp_unit"])
 	e := &callEnv{s: s, d: d, unit: unit, st: &bodyStats{}, intact: true, fieldVal: "field value \"1\""}
 	e.respBody = fileData(9, 2*unit)
+	setDefaultTimeout()
 
-	// effective deadline: the shorter of request timeout and caller context
-	dl := farMs
-	if s.needsDeadline() {
-		dl = nearMs
+	// effective deadline: the shorter of request timeout and caller context (noDeadlineMs when there is neither)
+	dl := noDeadlineMs
+	if tsrc != "zero" {
+		dl = timeoutMs
+	}
+	if ctxMs >= 0 && ctxMs < dl {
+		dl = ctxMs
 	}
 	e.stallCap = time.Duration(dl+stallCapMs) * time.Millisecond
-	var timeout time.Duration
+	timeout := time.Duration(timeoutMs) * time.Millisecond
 	var parent context.Context
 	var cancel context.CancelFunc
-	far := time.Duration(farMs) * time.Millisecond
-	near := time.Duration(dl) * time.Millisecond
-	switch tkind {
-	case "op": // request timeout only
-		timeout = near
+	if ctxMs >= 0 {
+		parent, cancel = context.WithTimeout(context.Background(), time.Duration(ctxMs)*time.Millisecond)
+	} else {
 		parent, cancel = context.WithCancel(context.Background())
-	case "ctx": // context deadline only, no request timeout
-		timeout = 0
-		parent, cancel = context.WithTimeout(context.Background(), near)
-	case "both_op": // both, the request timeout is the shorter
-		timeout = near
-		parent, cancel = context.WithTimeout(context.Background(), far+near)
-	default: // both_ctx: both, the context deadline is the shorter
-		timeout = far + near
-		parent, cancel = context.WithTimeout(context.Background(), near)
 	}
 	defer cancel()
 	e.cancelMs = -1
@@ -591,10 +597,11 @@ func runCallOnce(d M) (res M) {
 	}
 	op := &oaruntime.ClientOperation{ID: "verif", Method: "POST", PathPattern: "/upload",
 		ProducesMediaTypes: []string{"application/octet-stream"}, Schemes: []string{"http"}}
-	if ctxAt == "rt" {
+	switch ctxAt {
+	case "rt":
 		rt.Context = parent
-	} else {
-		op.Context = parent
+	case "op":
+		op.Context = parent // rt.Context stays context.Background(), as New leaves it
 	}
 	switch s.Payload {
 	case "mp":
@@ -608,8 +615,15 @@ func runCallOnce(d M) (res M) {
 		if s.Werr == "before" {
 			return errParams
 		}
-		if err := r.SetTimeout(timeout); err != nil {
-			return err
+		switch tsrc {
+		case "explicit":
+			if err := r.SetTimeout(timeout); err != nil {
+				return err
+			}
+		case "zero":
+			if err := r.SetTimeout(0); err != nil {
+				return err
+			}
 		}
 		switch s.Payload {
 		case "buffer":
@@ -774,11 +788,12 @@ func runCallOnce(d M) (res M) {
 		leaked = []string{}
 	}
 	// the effective deadline: the shorter of request timeout and caller context; a cancelled context is done at once
-	if cm := int(atomic.LoadInt32(&e.cancelMs)); cm >= 0 && cm < dl {
+	cm := int(atomic.LoadInt32(&e.cancelMs))
+	if cm >= 0 && cm < dl {
 		dl = cm
 	}
 	return M{
-		"result": result, "err_class": classify(err), "elapsed_ms": int(elapsed / time.Millisecond), "deadline_ms": dl,
+		"result": result, "err_class": classify(err), "elapsed_ms": int(elapsed / time.Millisecond), "deadline_ms": dl, "cancel_ms": cm,
 		"resp_obtained": st.obtained, "files_closed": filesClosed, "close_counts": closes,
 		"resp_closes": st.closes, "reader_saw_end": e.sawEnd, "term_before_close": st.termAtClose,
 		"unread_at_close": st.unread, "leaked": len(leaked), "leaked_frames": leaked, "src_hit": hit,
